@@ -22,6 +22,22 @@ theorem parent_lt_length (d : Doc) (j p : Nat) (h : d.parent j = some p) : j < d
     rw [hd] at h
     cases h
 
+/-- the decidable check the driver runs on every document implies the hypothesis of C14c/d -/
+theorem preOrder_of_check (d : Doc) (h : d.isPreOrder = true) : PreOrder d := by
+  simp only [Doc.isPreOrder, List.all_eq_true, List.mem_range, Bool.and_eq_true] at h
+  refine ⟨?_, ?_⟩
+  · intro j p hp
+    have hj := parent_lt_length d j p hp
+    have := (h j hj).1
+    rw [hp] at this
+    simpa using this
+  · intro j p hp
+    have hj1 := parent_lt_length d (j + 1) p hp
+    have := (h j (by omega)).2
+    rw [hp] at this
+    simp only [Bool.or_eq_true, beq_iff_eq, List.contains_iff_mem] at this
+    exact this
+
 /-! ### ancestors: enough fuel is enough -/
 
 theorem ancFuel_stable (d : Doc) (hp : ∀ j p, d.parent j = some p → p < j) :
